@@ -1,33 +1,137 @@
-(* Proofs/HttpStreamInv.v -- the lifecycle invariant of a stream (membership of its abstraction in the generated
-   table, or a state about which nothing is claimed) is preserved by every transition, for all inputs. *)
-From Coq Require Import List Bool NArith.
-From MV Require Import Base.Bytes Model.HttpStream Proofs.HttpStreamAbs Proofs.HttpStreamTable.
+(* Proofs/HttpStreamInv.v -- the lifecycle invariant.  ALL is the set of abstract stream states reachable in the
+   abstract interpreter from a new stream (computed by breadth-first search inside Coq); it is closed under every
+   abstract transition (checked by computation over all abstract inputs), and by soundness of the abstract
+   interpreter every stream reachable in the model, for all inputs of unbounded size, has its abstraction in ALL. *)
+From Coq Require Import List Bool NArith MSets.MSetPositive FSets.FMapPositive.
+From MV Require Import Base.Bytes Model.HttpStream Proofs.HttpStreamAbs Proofs.HttpStreamSound.
 Import ListNotations.
+Local Open Scope N_scope.
 
-Definition okb (s : stream) : bool := top s || inb (ctl_of s) (table_for (tag_of (pc s))).
-Definition Inv (s : stream) : Prop := okb s = true.
-
-Ltac destr :=
-  match goal with
-  | |- context [match ?x with _ => _ end] => (is_var x; destruct x) || (let E := fresh "E" in destruct x eqn:E)
+(* ---------- codes (only used to deduplicate during the search and to index buckets) *)
+Definition b2n (b : bool) : N := if b then 1 else 0.
+Definition sst_n (x : sst) : N :=
+  match x with SUninit => 0 | SWaitReqH => 1 | SConsumeReq => 2 | SStreamReq => 3 | SWaitRespH => 4
+             | SConsumeResp => 5 | SStreamResp => 6 | SDone => 7 | SErrored => 8 end.
+Definition after_n (a : after) : N := match a with AfNone => 0 | AfStreamHdr => 1 | AfStreamLate => 2 | AfConsume => 3 end.
+Definition pctag_n (p : pctag) : N :=
+  match p with
+  | PNone => 0 | PInvReq1 => 1 | PInvReq2 => 2 | PInvResp => 3 | PBsReq1 => 4 | PBsReq2 => 5 | PBsResp1 => 6 | PBsResp2 => 7
+  | PReqHeaders es => 8 + b2n es | PConnStreamHdr => 10 | PConnStreamLate => 11 | PConnConsume => 12
+  | PReqStream => 13 | PReq => 14 | PRespHSet => 15 | PRespH es => 16 + b2n es | PResponse a => 18 + b2n a
+  | PKilled => 20 | PPErr i af => 21 + 4 * b2n i + after_n af | PConnect => 29
   end.
-Ltac go := lazy; repeat (destr; lazy); vm_compute; reflexivity.
+Fixpoint mix (l : list (N * N)) : N := match l with [] => 0 | (radix, d) :: r => d + radix * mix r end.
+Definition m_n (m : mstate) : N :=
+  mix [(2, b2n (m_qh m)); (2, b2n (m_q m)); (2, b2n (m_rh m)); (2, b2n (m_r m)); (2, b2n (m_er m)); (2, b2n (m_cn m));
+       (2, b2n (m_ok m)); (2, b2n (m_er2 m)); (2, b2n (m_early m))].
+Definition idx (a : ast) : N := mix [(32, pctag_n (x_pc a)); (16, sst_n (x_cs a)); (16, sst_n (x_ss a))].
+Definition acode (a : ast) : N :=
+  mix [(8192, idx a); (512, m_n (x_m a)); (2, b2n (x_up a)); (2, b2n (x_ab a)); (2, b2n (x_rqe a)); (2, b2n (x_rqf a));
+       (2, b2n (x_rsf a)); (2, b2n (x_live a)); (2, b2n (x_rs a)); (2, b2n (x_rq a)); (2, b2n (x_tun a)); (2, b2n (x_cr a));
+       (2, b2n (x_ve a)); (2, b2n (x_vg a))].
 
-Lemma Inv_new id : Inv (new_stream id).
+Definition m_eqb (a b : mstate) : bool :=
+  Bool.eqb (m_qh a) (m_qh b) && Bool.eqb (m_q a) (m_q b) && Bool.eqb (m_rh a) (m_rh b) && Bool.eqb (m_r a) (m_r b)
+  && Bool.eqb (m_er a) (m_er b) && Bool.eqb (m_cn a) (m_cn b) && Bool.eqb (m_ok a) (m_ok b)
+  && Bool.eqb (m_er2 a) (m_er2 b) && Bool.eqb (m_early a) (m_early b).
+Definition ast_eqb (a b : ast) : bool :=
+  N.eqb (pctag_n (x_pc a)) (pctag_n (x_pc b)) && sst_eqb (x_cs a) (x_cs b) && sst_eqb (x_ss a) (x_ss b) && m_eqb (x_m a) (x_m b)
+  && Bool.eqb (x_up a) (x_up b) && Bool.eqb (x_ab a) (x_ab b) && Bool.eqb (x_rqe a) (x_rqe b)
+  && Bool.eqb (x_rqf a) (x_rqf b) && Bool.eqb (x_rsf a) (x_rsf b) && Bool.eqb (x_live a) (x_live b)
+  && Bool.eqb (x_rs a) (x_rs b) && Bool.eqb (x_rq a) (x_rq b) && Bool.eqb (x_tun a) (x_tun b)
+  && Bool.eqb (x_cr a) (x_cr b) && Bool.eqb (x_ve a) (x_ve b) && Bool.eqb (x_vg a) (x_vg b).
+
+Lemma sst_eqb_eq a b : sst_eqb a b = true -> a = b.
+Proof. destruct a, b; simpl; intros H; try discriminate; reflexivity. Qed.
+Lemma pctag_n_inj a b : N.eqb (pctag_n a) (pctag_n b) = true -> a = b.
+Proof.
+  destruct a as [| | | | | | | |[]| | | | | | |[]|[]| |[] []|], b as [| | | | | | | |[]| | | | | | |[]|[]| |[] []|];
+    vm_compute; intros H; try discriminate; reflexivity.
+Qed.
+Lemma m_eqb_eq a b : m_eqb a b = true -> a = b.
+Proof.
+  destruct a, b; unfold m_eqb; simpl; intros H.
+  repeat (apply andb_prop in H; destruct H as [H ?]).
+  repeat match goal with E : Bool.eqb _ _ = true |- _ => apply eqb_prop in E end. subst. reflexivity.
+Qed.
+Lemma ast_eqb_eq a b : ast_eqb a b = true -> a = b.
+Proof.
+  destruct a, b; unfold ast_eqb; simpl; intros H.
+  repeat (apply andb_prop in H; destruct H as [H ?]).
+  repeat match goal with E : Bool.eqb _ _ = true |- _ => apply eqb_prop in E end.
+  repeat match goal with E : sst_eqb _ _ = true |- _ => apply sst_eqb_eq in E end.
+  match goal with E : m_eqb _ _ = true |- _ => apply m_eqb_eq in E end.
+  apply pctag_n_inj in H. subst. reflexivity.
+Qed.
+
+(* ---------- abstract transition relation of a stream *)
+Definition all_aev : list aev :=
+  flat_map (fun i => flat_map (fun c => flat_map (fun h => [AReqHeaders i c h true; AReqHeaders i c h false])
+                                                [true; false]) [true; false]) [true; false]
+  ++ [AReqData; AReqEOM; AReqErr; ARespHeaders true true; ARespHeaders true false; ARespHeaders false true;
+      ARespHeaders false false; ARespData; ARespEOM; ARespErr].
+Lemma all_aev_complete e : In e all_aev.
+Proof. destruct e as [[] [] [] []| | | |[] []| | |]; vm_compute; tauto. Qed.
+
+Definition a_stopped (a : ast) : bool := x_tun a || x_cr a.
+Definition is_pnone (p : pctag) : bool := match p with PNone => true | _ => false end.
+Definition succs (a : ast) : list ast :=
+  (if is_pnone (x_pc a) then [] else a_apply_act a) ++
+  (if a_stopped a then []
+   else if is_pnone (x_pc a) then a_crash a ++ flat_map (fun e => a_run_event e a) all_aev
+   else flat_map (fun ok => a_resume (x_pc a) ok (sx_pc PNone a)) [true; false]).
+
+(* ---------- breadth-first search *)
+Definition pcode (a : ast) : positive := N.succ_pos (acode a).
+Fixpoint insert_all (cands : list ast) (seen : PositiveSet.t) (front : list ast) : PositiveSet.t * list ast :=
+  match cands with
+  | [] => (seen, front)
+  | a :: r => if PositiveSet.mem (pcode a) seen then insert_all r seen front
+              else insert_all r (PositiveSet.add (pcode a) seen) (a :: front)
+  end.
+Fixpoint level (front : list ast) (seen : PositiveSet.t) (next : list ast) : PositiveSet.t * list ast :=
+  match front with
+  | [] => (seen, next)
+  | a :: rest => let '(seen1, next1) := insert_all (succs a) seen next in level rest seen1 next1
+  end.
+Fixpoint bfs (fuel : nat) (front : list ast) (seen : PositiveSet.t) (acc : list ast) : list ast * nat :=
+  match fuel with
+  | O => (acc, length front)
+  | S f => match front with
+           | [] => (acc, 0%nat)
+           | _ => let '(seen1, next) := level front seen [] in bfs f next seen1 (front ++ acc)
+           end
+  end.
+Definition a_init : ast := abs (new_stream 1).
+Definition SEARCH : list ast * nat := Eval vm_compute in bfs 200 [a_init] (PositiveSet.singleton (pcode a_init)) [].
+Definition ALL : list ast := Eval vm_compute in fst SEARCH.
+
+(* ---------- the table, bucketed by (pc, client_state, server_state) *)
+Definition key (a : ast) : positive := N.succ_pos (idx a).
+Definition add_b (m : PositiveMap.t (list ast)) (a : ast) : PositiveMap.t (list ast) :=
+  PositiveMap.add (key a) (a :: match PositiveMap.find (key a) m with Some l => l | None => [] end) m.
+Definition BM : PositiveMap.t (list ast) := Eval vm_compute in fold_left add_b ALL (PositiveMap.empty _).
+Definition okb (a : ast) : bool :=
+  match PositiveMap.find (key a) BM with Some l => existsb (ast_eqb a) l | None => false end.
+Definition ELEMS : list ast := Eval vm_compute in flat_map snd (PositiveMap.elements BM).
+
+Lemma okb_In a : okb a = true -> In a ELEMS.
+Proof.
+  unfold okb. destruct (PositiveMap.find (key a) BM) as [l|] eqn:E; [|discriminate].
+  intros H. apply existsb_exists in H. destruct H as [x [Hx Heq]]. apply ast_eqb_eq in Heq. subst x.
+  apply PositiveMap.elements_correct in E.
+  change ELEMS with (flat_map snd (PositiveMap.elements BM)).
+  apply in_flat_map. exists (key a, l). split; [exact E | exact Hx].
+Qed.
+
+Definition closed_b : bool := forallb (fun a => forallb okb (succs a)) ELEMS.
+Lemma closed : closed_b = true.
 Proof. vm_compute. reflexivity. Qed.
 
-Opaque okb.
-Lemma L_event_test o s e : pc s = None -> top s = false -> In (ctl_of s) (table_for PNone) -> okb (fst (run_event o s e)) = true.
+Lemma okb_succ a a' : okb a = true -> In a' (succs a) -> okb a' = true.
 Proof.
-  intros Hpc Htop Hin.
-  destruct s as [sid cs ss pc queue req rc rs fresp ferr live rb pb srv hooks up tun cr ms ab rqe rqf rsf ve vg].
-  cbn in Hpc. subst pc.
-  unfold top in Htop. cbn [tunnel crashed venv vgap] in Htop.
-  apply orb_false_elim in Htop; destruct Htop as [Htop ->]. apply orb_false_elim in Htop; destruct Htop as [Htop ->].
-  apply orb_false_elim in Htop; destruct Htop as [-> ->].
-  unfold ctl_of in Hin. cbn [HttpStream.cs HttpStream.ss msum upstream aborted reqerr_h req_fin resp_fin HttpStream.live req_stream] in Hin.
-  unfold table_for in Hin.
-  Time (destruct Hin as [Hin | Hin]; [injection Hin; intros; subst; clear Hin; destruct e; try (go; fail) |]).
-  Time (destruct Hin as [Hin | Hin]; [injection Hin; intros; subst; clear Hin; destruct e; try (go; fail) |]).
-  Show 1.
-Admitted.
+  intros Ha Hin. apply okb_In in Ha. pose proof closed as C. unfold closed_b in C.
+  rewrite forallb_forall in C. specialize (C a Ha). rewrite forallb_forall in C. exact (C a' Hin).
+Qed.
+Lemma okb_init : okb a_init = true.
+Proof. vm_compute. reflexivity. Qed.
